@@ -1,21 +1,28 @@
 #!/usr/bin/env python3
-"""try_seed.py <patch.diff> <Cnn> [<Cnn> ...] — apply a seeded change to /repo's working tree, run
-the given checks (quick tier unless TIER=thorough), and undo the change straight afterwards.
+"""try_seed.py <patch.diff> <Cnn> [<Cnn> ...] — run the given checks (quick tier unless TIER=thorough)
+against a seeded change applied to a SCRATCH export of /repo HEAD (never /repo itself, so that other
+runs are not disturbed), with their own build/evidence/replay directories under /tmp.
 Prints per check: exit code and VIOLATION / KNOWN-FINDING lines."""
-import os, subprocess, sys
+import hashlib, os, shutil, subprocess, sys
 patch = os.path.abspath(sys.argv[1])
 props = sys.argv[2:]
 tier = os.environ.get("TIER", "quick")
 root = os.path.dirname(os.path.dirname(os.path.abspath(__file__)))
-assert subprocess.run(["git", "-C", "/repo", "status", "--porcelain", "--untracked-files=no"], capture_output=True, text=True).stdout.strip() == "", "/repo not clean"
-r = subprocess.run(["git", "-C", "/repo", "apply", patch])
-if r.returncode != 0:
+tag = hashlib.sha256(open(patch, "rb").read()).hexdigest()[:8]
+r, b, o = "/tmp/tryrepo_" + tag, "/tmp/trybuild_" + tag, "/tmp/tryout_" + tag
+shutil.rmtree(r, ignore_errors=True)
+os.makedirs(r)
+subprocess.run("git -C /repo archive HEAD | tar -x -C %s" % r, shell=True, check=True)
+if subprocess.run(["patch", "-p1", "-s", "-i", patch], cwd=r).returncode != 0:
     sys.exit("patch does not apply")
+env = dict(os.environ, VERIF_REPO=r, VERIF_BUILD=b, VERIF_OUT=o)
 try:
     for p in props:
-        pr = subprocess.run([os.path.join(root, "check"), p, tier], capture_output=True, text=True)
+        pr = subprocess.run([os.path.join(root, "check"), p, tier], capture_output=True, text=True, env=env)
         lines = [l for l in pr.stdout.split("\n") if l.startswith("VIOLATION") or l.startswith("KNOWN")]
         print("%s rc=%d %s" % (p, pr.returncode, " | ".join(lines) if lines else ""))
         print("   " + pr.stderr.strip().split("\n")[-1])
+    print("replays (if any) under %s/replays" % o)
 finally:
-    subprocess.run(["git", "-C", "/repo", "checkout", "--", "."])
+    shutil.rmtree(r, ignore_errors=True)
+    shutil.rmtree(b, ignore_errors=True)
